@@ -617,8 +617,8 @@ def check_instance(fx, R, cq, cname):
     from .. import lsmodel, sym, alg
     getj = [g for g in fx.fn(cq + '::getJ') if not g.get('const')]
     escapes = any('&' in (g.get('sig') or '').split('(')[0] for g in getj)
-    for (data, est, tag) in ((3, 2, '3 rows of 5'), (2, 2, 'square: 2 rows of 5')):
-        inst = lsmodel.Instance(data=data, est=est)
+    for (data, est, tag) in ((3, 2, '3 rows of 5'), (2, 2, 'square: 2 rows of 5'), (192, 1, 'block sizes: 192 rows (a multiple of 8, 16, 32 and 64) of 200')):
+        inst = lsmodel.Instance(data=data, est=est, rows=200 if data == 192 else lsmodel.ROWS)
         J3, Y3, W3 = inst.cur()
         stale_rows, old_state = inst.stale()
         wsyms = set(inst.W)
@@ -633,6 +633,8 @@ def check_instance(fx, R, cq, cname):
                 ('estimateUsingCholeskyDecomposition', lambda st: st.ret, exp_chol, 'A (J^T J)^-1 J^T Y + b', False),
                 ('weightedEstimate', lambda st: st.ret, exp_w, 'A (J^T W^2 J)^-1 J^T W^2 Y + b (the minimiser of sum (w_i r_i)^2)', True),
                 ('estimateUsingCholeskyDecomposition', lambda st: st.fields.get(('this', 'inverseJtJ_')), (J3.T * J3).inv(), 'inverseJtJ_ = (J^T J)^-1 (what computeEstimateCovariance scales)', False))
+        if data == 192:
+            jobs = jobs[:2]         # row coverage of the two accumulation helpers only
         for (name, getter, expected, what, weighted) in jobs:
             f = fx.one(cq + '::' + name)
             inst_name = '%s::%s:instance(%s)%s' % (cname, name, tag, ':stored-inverse' if what.startswith('inverseJtJ_') else '')
